@@ -106,8 +106,10 @@ func cmdFn(args []string) {
 			}
 			if o.Kind == "pre-sat" {
 				if o.Status == "proved" {
-					fmt.Printf("   VACUOUS precondition %s\n", o.Name)
-					bad++
+					fmt.Printf("   VACUOUS (unsatisfiable) %s\n", o.Name)
+					if o.Group == "" {
+						bad++
+					}
 				}
 				continue
 			}
@@ -197,6 +199,9 @@ func (p *Program) runJobsL(fns []*ssa.Function, lemmas []*Contract, cfg SolverCf
 	}
 	// stage 1a: hypotheses without their quantified parts (the deterministic instances remain); stage 1b: with them
 	for _, dropQ := range []bool{true, false} {
+		if os.Getenv("GOVC_NOSTAGE1") != "" {
+			break
+		}
 		var chunks []chunk
 		for i, j := range jobs {
 			var pend []*Obligation
@@ -251,6 +256,9 @@ func (p *Program) runJobsL(fns []*ssa.Function, lemmas []*Contract, cfg SolverCf
 			if o.Status == "proved" || (o.Status == "failed" && (o.Model != nil || o.Kind == "pre-sat")) {
 				continue
 			}
+			if o.Kind == "pre-sat" && o.Group != "" {
+				continue // reachability probe: only a quick `unsat` matters
+			}
 			q := pf{j: j, o: o, script: buildSingle(j, o, cfg.TimeoutMs, true)}
 			if o.Kind != "pre-sat" && len(j.Facts) > 400 {
 				q.sliced = append(q.sliced, buildSliced(j, o, 5000, 2))
@@ -274,6 +282,10 @@ func (p *Program) runJobsL(fns []*ssa.Function, lemmas []*Contract, cfg SolverCf
 			// first a goal-directed slice of the hypotheses (sound: only drops facts); `unsat` settles it
 			for _, sl := range q.sliced {
 				tmp := &Obligation{Name: q.o.Name, Kind: q.o.Kind}
+				if cfg.Keep {
+					os.MkdirAll(cfg.Dir, 0o755)
+					os.WriteFile(filepath.Join(cfg.Dir, sanitizeFile(q.o.Name)+".sliced.smt2"), []byte(sl), 0o644)
+				}
 				ctx, cancel := context.WithTimeout(context.Background(), 7*time.Second)
 				out, _ := runSolver(ctx, "z3-new", []string{"-in", "smt.array.extensional=false"}, sl)
 				cancel()
